@@ -1962,3 +1962,8 @@ MA('C20', 'multi-indexed product space element loses the component weights',
    'odl/space/pspace.py', 'ProductSpaceElement.__getitem__',
    'new_space = ProductSpace(*(p.space for p in indexed), weighting=self.space[indices[0]].weighting)',
    'new_space = ProductSpace(*(p.space for p in indexed))', 'R7f')
+MA('C07', 'nested quadratic perturbations merged by accumulating into the stored linear term',
+   'odl/solvers/functional/functional.py', 'FunctionalQuadraticPerturb.proximal',
+   'return proximal_quadratic_perturbation(self.functional.proximal, a=self.quadratic_coeff, u=self.linear_term)',
+   'f, a, u = self.functional, self.quadratic_coeff, self.linear_term\nwhile isinstance(f, FunctionalQuadraticPerturb):\n    a += f.quadratic_coeff\n    u += f.linear_term\n    f = f.functional\nreturn proximal_quadratic_perturbation(f.proximal, a=a, u=u)',
+   'FunctionalQuadraticPerturb(FunctionalQuadraticPerturb')
